@@ -89,6 +89,10 @@ var histTags = []tagPair{
 	{"custom-x", "x", "!x", []string{"-build-tags", "x", "-output-constraint", "!x"}},
 	{"list-a-b", "a,b", "!a", []string{"-build-tags", "a,b", "-output-constraint", "!a"}},
 	{"list-b-a", "b,a", "!a", []string{"-build-tags", "b,a", "-output-constraint", "!a"}},
+	// constraints that are expressions and start with a positive term (letters, digits, dots)
+	{"expr-go-version", "gen", "go1.18 && !gen", []string{"-build-tags", "gen", "-output-constraint", "go1.18 && !gen"}},
+	{"expr-os-or", "gen", "(linux || darwin || windows) && !gen", []string{"-build-tags", "gen", "-output-constraint", "(linux || darwin || windows) && !gen"}},
+	{"positive-tag-only", "", "build_generated", []string{"-build-tags", "", "-output-constraint", "build_generated"}},
 }
 
 func setVersion(t fshist.Tree, l histLayout, v int, constraint string) fshist.Tree {
